@@ -160,6 +160,7 @@ def applyEv (env : Env) (s : Sys) (ev : List String) : Option Sys :=
   | ["dle", k, ok] => k.toNat?.bind fun k => (bit ok).bind fun ok => step s (.h k (.dialEnd ok))
   | ["tcl", _] => some s
   | ["cx", _] => some s
+  | ["tmo", _] => some s
   | ["tls", _] => some s
   | ["h2", _] => some s
   | ["panic"] =>
@@ -273,6 +274,11 @@ def updEnv (env : Env) (ev : List String) : Env :=
     match k.toNat? with
     | some k => { env with aborted := setPad env.aborted k false true }
     | none => env
+  -- the exchange outlasted the idle deadline the application configured (`SetTimeout`): its response write fails
+  | ["tmo", k] =>
+    match k.toNat? with
+    | some k => { env with aborted := setPad env.aborted k false true }
+    | none => env
   | ["tls", k] =>
     match k.toNat? with
     | some k => { env with tls := setPad env.tls k false true }
@@ -300,6 +306,7 @@ def accept : List String → Nat → Env → List Sys → String
       | ["snd", _, "t"] => updEnv env ev
       | ["tcl", _] => updEnv env ev
       | ["cx", _] => updEnv env ev
+      | ["tmo", _] => updEnv env ev
       | ["tls", _] => updEnv env ev
       | ["h2", _] => updEnv env ev
       | _ => env
